@@ -280,6 +280,10 @@ func DrawArgs(w *World, m *channel.StateMachine, pre *Pre) *Args {
 		a.State = w.State()
 		a.State.ID = gen.IDLike(a.State.ID)
 		a.Actor = channel.Index(rt.NondetU16())
+		if a.Op == OpForceUpdate && rt.NondetBool() {
+			// ForceUpdate does not validate: a state with a balance column missing
+			a.State.Balances[0] = a.State.Balances[0][:w.N-1]
+		}
 	case OpCheckUpdate:
 		a.State = w.State()
 		a.State.ID = gen.IDLike(a.State.ID)
